@@ -378,3 +378,29 @@ class apply_paint_unsupported:
     raises = {"NotImplementedError": lambda: True}
     ensures = {}
     native = False
+
+
+# ---- _apply_solid_paint: SVG's default paint (opaque black) is written as "no attribute" -----
+
+_SOLID = Record("nanoemoji.paint.PaintSolid", color=COLOR)
+
+
+def _plain_black(c):
+    return (c.red, c.green, c.blue) == (0, 0, 0) and isnone(c.palette_index)
+
+
+@contract("nanoemoji.svg._apply_solid_paint", props=["C02", "C06", "C13"])
+class apply_solid_paint:
+    args = {"el": OneOf(Elem("path"), Elem("use"), Elem("g")), "paint": _SOLID}
+    # a group can only carry an opacity: its "colour" must be plain black
+    raises = {"AssertionError": lambda el, paint: el.tag == "g" and not _plain_black(paint.color)}
+    ensures = {
+        # fill is omitted exactly for plain black (the default paint a <use> can override)
+        "fill-iff-not-plain-black": lambda el, paint: iff("fill" in el.attrib, not _plain_black(paint.color)),
+        "fill-is-the-opaque-colour": lambda el, paint: "fill" not in el.attrib
+        or el.attrib["fill"] == ufn("css_colour", "str", paint.color.red, paint.color.green, paint.color.blue, 1.0),
+        "opacity-iff-translucent": lambda el, paint: iff("opacity" in el.attrib, paint.color.alpha != 1),
+        "opacity-is-the-alpha": lambda el, paint: "opacity" not in el.attrib or el.attrib["opacity"] == ufn("ntos_round3", "str", paint.color.alpha),
+        "nothing-else": lambda el: all(k in ("fill", "opacity") for k in el.attrib),
+    }
+    native = False
